@@ -101,30 +101,83 @@ def n1(prog):
 
 
 def n2(prog):
-    """infix `A op B` is built as ?(let ~a~ := A; let ~b~ := B; ~a~ ~b~ op): same reserved names at bind and read"""
+    """infix `A op B` is ?(let x := A; let y := B; x y op): parse_op interpreted from source on operands of several tree kinds.
+    The tree it returns must be ASSERT(PRED_SUBX_ANY(SCOPE(...))) whose statements, with nested CATs flattened, are
+    SUBX_EVAL<1>(SCOPE A), BIND x, SUBX_EVAL<1>(SCOPE B), BIND y, READ x, READ y, READ op with two different reserved names."""
+    from cxxobj import CxxEvaluator, Obj, Vec, StdStr, OutOfBounds
+    from absint import Thrown
+    from r_scope import tree_types
     inst, findings = [], []
     po = prog.func_opt("(anonymous namespace)::parse_op")
-    tm = prog.func_opt("(anonymous namespace)::parse_op_tmplet")
-    if po is None or tm is None:
-        raise Broken("anchors parse_op / parse_op_tmplet vanished")
-    from r_tables import strval
-    sv = lambda x: strval(x, po["body"])
-    tmpl_names = [sv(c["a"][0]) for c in calls(po["body"]) if c.get("fn") == "parse_op_tmplet"]
-    words = [sv(c["a"][0]) for c in calls(po["body"]) if c.get("fn") == "parse_word" and sv(c["a"][0]) is not None]
-    opread = [c for c in calls(po["body"]) if c.get("fn") == "parse_word" and sv(c["a"][0]) is None]
-    wrapped = any(c.get("f") == "tree::create_assert" for c in calls(po["body"])) and \
-        any(c.get("f", "").startswith("tree::create_unary<") and "PRED_SUBX_ANY" in c.get("f", "") for c in calls(po["body"])) and \
-        any(c.get("f") == "tree::create_scope" for c in calls(po["body"]))
-    # template: SUBX_EVAL<1>(SCOPE x) then BIND name
-    one = any(c.get("f", "").startswith("tree::create_const<") and "SUBX_EVAL" in c["f"] for c in calls(tm["body"]))
-    binds = any(c.get("fn") == "tree_for_id_block" for c in calls(tm["body"]))
+    if po is None:
+        raise Broken("anchor parse_op vanished")
+    tt = tree_types(prog)
+    names = {v: k for k, v in tt.items()}
+    ev = CxxEvaluator({"method:release": lambda ev, o, a: o}, {}, prog=prog)
+
+    def mk(kind, children=()):
+        t = Obj("tree")
+        t.m_tt = ("enum", kind, tt[kind])
+        t.m_children = Vec(list(children), "children")
+        t.m_str = t.m_cst = t.m_builtin = None
+        t.m_scope = None
+        return t
+
+    def kd(t):
+        return t.m_tt[1] if isinstance(t.m_tt, tuple) else names.get(t.m_tt, t.m_tt)
+
+    def sval(t):
+        s_ = getattr(t, "m_str", None)
+        return s_.b.decode("latin-1") if isinstance(s_, StdStr) else None
+
+    def cval(t):
+        c = getattr(t, "m_cst", None)
+        return getattr(getattr(c, "m_value", None), "m_u", None)
+
+    def shape(t):
+        if not isinstance(t, Obj):
+            return repr(t)
+        k = kd(t)
+        extra = ("<%s>" % sval(t) if sval(t) is not None else "") + ("<%s>" % cval(t) if cval(t) is not None else "")
+        ch = [shape(c) for c in t.m_children.items]
+        return k + extra + ("(" + ", ".join(ch) + ")" if ch else "")
+
+    def flat(t):
+        if kd(t) == "CAT":
+            out = []
+            for c in t.m_children.items:
+                out += flat(c)
+            return out
+        return [t]
     key = "N2:parse_op"
-    info = {"bound": tmpl_names, "read": words, "reads_operator": len(opread) == 1, "assert_subx_scope": wrapped, "tmplet": one and binds}
-    inst.append((key, info))
-    ok = len(tmpl_names) == 2 and tmpl_names == words and len(set(tmpl_names)) == 2 and len(opread) == 1 and wrapped and one and binds
-    if not ok:
+    bad = None
+    operands = [("CONST", ()), ("ALT", ("NOP", "F_DEBUG")), ("CAT", ("NOP", "F_DEBUG")), ("NOP", ())]
+    try:
+        for ka, ca in operands:
+            for kb, cb in operands[:2]:
+                a, b = mk(ka, [mk(x) for x in ca]), mk(kb, [mk(x) for x in cb])
+                sa, sb = shape(a), shape(b)
+                r = ev.call(po, None, [a, b, StdStr(b"?lt")])
+                ok = isinstance(r, Obj) and kd(r) == "ASSERT" and len(r.m_children.items) == 1
+                p = r.m_children.items[0] if ok else None
+                ok = ok and kd(p) == "PRED_SUBX_ANY" and len(p.m_children.items) == 1 and kd(p.m_children.items[0]) == "SCOPE" and len(p.m_children.items[0].m_children.items) == 1
+                st = flat(p.m_children.items[0].m_children.items[0]) if ok else []
+                ok = ok and [kd(x) for x in st] == ["SUBX_EVAL", "BIND", "SUBX_EVAL", "BIND", "READ", "READ", "READ"]
+                if ok:
+                    e1, b1, e2, b2, r1, r2, r3 = st
+                    # an operand that is a no-op is represented by NOP either way (maybe_nop)
+                    want_a = "SCOPE(%s)" % sa
+                    want_b = "SCOPE(%s)" % sb
+                    ok = cval(e1) == 1 and cval(e2) == 1 and [shape(c) for c in e1.m_children.items] == [want_a] and [shape(c) for c in e2.m_children.items] == [want_b] \
+                        and sval(b1) is not None and sval(b2) is not None and sval(b1) != sval(b2) and sval(r1) == sval(b1) and sval(r2) == sval(b2) and sval(r3) == "?lt"
+                if not ok and bad is None:
+                    bad = "`A ?lt B` with A = %s, B = %s is built as %s" % (sa, sb, shape(r))
+    except (OutOfBounds, Thrown) as x:
+        raise Broken("parse_op cannot be evaluated: %s" % x)
+    inst.append((key, {"operand_pairs": len(operands) * 2}))
+    if bad:
         findings.append({"key": key, "where": po["l"],
-                         "msg": "infix comparison is no longer built as ?(let a := A; let b := B; a b op) with matching reserved names (bound %s, read %s)" % (tmpl_names, words), "detail": info})
+                         "msg": "infix comparison is no longer built as ?(let a := A; let b := B; a b op): %s" % bad, "detail": None})
     return inst, findings
 
 
